@@ -249,7 +249,7 @@ func init() {
 	api("verifWaitIdle", func(e *Engine, a []value) value { return int64(e.waitIdle()) })
 	api("verifYield", func(e *Engine, a []value) value { e.yield(); return nil })
 	api("verifGo", func(e *Engine, a []value) value {
-		e.cur.label = int(e.concInt(a[0], "goroutine label"))
+		e.cur.label, e.cur.labelled = int(e.concInt(a[0], "goroutine label")), true
 		e.yieldNow()
 		// recorded when the goroutine proceeds past the point (not when it arrives): the native
 		// sequencer lets goroutines pass their points in exactly this order
@@ -259,7 +259,13 @@ func init() {
 	api("verifGoDone", func(e *Engine, a []value) value { return nil })
 	api("verifSched", func(e *Engine, a []value) value {
 		e.yieldNow()
-		e.schedTrace = append(e.schedTrace, strconv.Itoa(e.cur.label)+":"+e.concStr(a[0], "sched label"))
+		// goroutines started inside the library cannot be named by the harness: the native sequencer binds
+		// "g<k>" to the first unidentified goroutine that arrives with the expected label
+		who := "g" + strconv.Itoa(e.cur.id)
+		if e.cur.labelled || e.cur.id == 0 {
+			who = strconv.Itoa(e.cur.label)
+		}
+		e.schedTrace = append(e.schedTrace, who+":"+e.concStr(a[0], "sched label"))
 		return nil
 	})
 	api("verifSymbolic", func(e *Engine, a []value) value { return true })
